@@ -1,5 +1,5 @@
 SPECIFICATION FairSpec
-CONSTANTS Cap = 2  Payload = 3  Variant = "run_process"  Drain = TRUE  CloseAll = TRUE  Timeout = FALSE  Escalate = TRUE  ProgName = "readwrite"
+CONSTANTS Cap = 2  Payload = 3  Variant = "run_process"  Drain = TRUE  CloseAll = TRUE  Timeout = FALSE  Escalate = TRUE  DtorSig = "KILL"  ProgName = "readwrite"
 CONSTANT Prog <- MCProg
 INVARIANTS OutputComplete StatusExact Reaped AllFdsClosed StdinDelivered NoThrowUnlessEpipe
 PROPERTY Termination
